@@ -262,3 +262,109 @@ for _k in ("two_sided", "lower", "upper"):
     group(["C16"], "variable.Bound/%s" % _k, ["variable:Bound.get_func", "variable:Bound.__init__"], no_native=True,
           assumes=["A-LIB: sympy.sympify / diff / solve produce the expressions that are then checked (their OUTPUT is verified, not trusted)",
                    "for a one-sided bound the missing limit is the code's +-1e9 placeholder"])(_mk_bound(_k))
+
+
+# ---------------------------------------------------------------------------------------------
+# fit coordinates: set_trans_var / set_all / get / get_all_val with a bound on any one of three free parameters and a fixed fourth one
+# ---------------------------------------------------------------------------------------------
+class _BoundSummary:
+    """assumed contract of a Bound object (proved separately in variable.Bound/*): get_x2y = f, get_y2x = f^-1 (opaque functions, inverse of each other)"""
+
+    def __init__(self, tag):
+        self.tag = tag
+
+    def get_x2y(self, x):
+        return tm.fn("Bf_" + self.tag, tm._l(_term(x)))
+
+    def get_y2x(self, y):
+        return tm.fn("Binv_" + self.tag, tm._l(_term(y)))
+
+
+def _term(x):
+    from vt.core import shim_tf
+
+    if isinstance(x, shim_tf.STensor):
+        return shim_tf.elems(x)[0]
+    if hasattr(x, "a") and hasattr(x.a, "reshape"):
+        return x.a.reshape(-1)[0]
+    return x
+
+
+def _mk_fit_coordinates(bounded_pos):
+    def g(ctx):
+        tf, shim = ctx.tf, ctx.shim
+        variable = ctx.mod("variable")
+        variable.np = shim.NpProxy()
+        S = lambda t: shim.STensor(shim._arr(t))  # noqa: E731
+        names = ["p0", "p1", "p2"]
+        v0 = [ctx.real("v%d" % i, ()) for i in range(3)]
+        vf = ctx.real("vfix", ())
+        vm = variable.VarsManager.__new__(variable.VarsManager)
+        def sym_var(v):
+            # tf.Variable whose .numpy() hands back the stored symbolic value (numpy() of the shim is for concrete tensors only)
+            var = tf.Variable(v)
+            var.numpy = lambda var=var: _term(var.value())
+            return var
+
+        vm.variables = {n: sym_var(v) for n, v in zip(names, v0)}
+        vm.variables["fixed"] = sym_var(vf)
+        vm.trainable_vars = list(names)
+        vm.complex_vars = {}
+        vm.same_list = []
+        vm.mask_vars = {}
+        vm.pre_trans = {}
+        bname = names[bounded_pos]
+        vm.bnd_dic = {bname: _BoundSummary("b")}
+        stored = lambda n: S(_term(tf.convert_to_tensor(vm.variables[n])))  # noqa: E731
+        x = [ctx.real("x%d" % i, ()) for i in range(3)]
+        xt = [_term(t) for t in x]
+        # ---- a fit step: set_trans_var(x)
+        vm.set_trans_var(list(xt))
+        for i, n in enumerate(names):
+            want = tm.fn("Bf_b", xt[i]) if i == bounded_pos else xt[i]
+            ctx.eq("set_trans_var/stored[%s]" % n, stored(n), S(want), clause="after set_trans_var(x): the k-th free parameter stores f(x_k) if bounded, else x_k (same k on both sides)")
+        ctx.eq("set_trans_var/fixed_untouched", stored("fixed"), vf, clause="a fixed parameter is not written by a fit step")
+        # ---- reading back in fit coordinates gives x again (uses f^-1(f(x)) = x)
+        ctx.lemma(S(tm.fn("Binv_b", tm.fn("Bf_b", xt[bounded_pos]))) == x[bounded_pos])
+        back = vm.get_all_val(True)
+        for i, n in enumerate(names):
+            ctx.eq("get_all_val_in_fit/after_step[%s]" % n, S(_term(back[i])), x[i], clause="get_all_val(val_in_fit=True) after set_trans_var(x) returns x (k-th entry for the k-th free parameter)")
+        raw = vm.get_all_val()
+        for i, n in enumerate(names):
+            ctx.eq("get_all_val_raw[%s]" % n, S(_term(raw[i])), stored(n), clause="get_all_val() returns the stored (physical) values in the order of trainable_vars")
+        # ---- set_all(list) writes physical values, set_all(list, True) fit coordinates; dict form likewise
+        y = [ctx.real("y%d" % i, ()) for i in range(3)]
+        yt = [_term(t) for t in y]
+        vm.set_all(list(yt))
+        for i, n in enumerate(names):
+            ctx.eq("set_all_list/stored[%s]" % n, stored(n), y[i], clause="set_all(list): k-th free parameter := k-th value (no bound transformation)")
+        vm.set_all(list(xt), True)
+        for i, n in enumerate(names):
+            want = tm.fn("Bf_b", xt[i]) if i == bounded_pos else xt[i]
+            ctx.eq("set_all_list_in_fit/stored[%s]" % n, stored(n), S(want), clause="set_all(list, val_in_fit=True): bounded parameter := f(x_k)")
+        o1, o2 = (bounded_pos + 1) % 3, (bounded_pos + 2) % 3
+        vm.set_all({names[o1]: yt[o1], bname: yt[bounded_pos]})
+        ctx.eq("set_all_dict/stored[bounded]", stored(bname), y[bounded_pos], clause="set_all(dict) (val_in_fit=False): a bounded name := its value, NOT pushed through the bound")
+        ctx.eq("set_all_dict/stored[other]", stored(names[o1]), y[o1], clause="set_all(dict): named parameters := their values")
+        ctx.eq("set_all_dict/others_untouched", stored(names[o2]), x[o2], clause="set_all(dict): a name that is not in the dictionary keeps its value")
+        vm.set_all({bname: xt[bounded_pos]}, val_in_fit=True)
+        ctx.eq("set_all_dict_in_fit/stored", stored(bname), S(tm.fn("Bf_b", xt[bounded_pos])), clause="set_all(dict, val_in_fit=True) applies the bound transformation of that name")
+        # ---- set / get of one name
+        z = ctx.real("z", ())
+        zt = _term(z)
+        vm.set(bname, zt)
+        ctx.eq("set_in_fit/stored", stored(bname), S(tm.fn("Bf_b", zt)), clause="set(name, z) (default val_in_fit=True) stores f(z) for a bounded name")
+        vm.set(bname, zt, val_in_fit=False)
+        ctx.eq("set_raw/stored", stored(bname), z, clause="set(name, z, val_in_fit=False) stores z")
+        ctx.eq("get_raw", S(_term(vm.get(bname, val_in_fit=False))), z, clause="get(name, val_in_fit=False) returns the stored value")
+        ctx.eq("get_in_fit", S(_term(vm.get(bname))), S(tm.fn("Binv_b", zt)), clause="get(name) (default val_in_fit=True) returns f^-1(stored) for a bounded name")
+        ctx.eq("fixed_untouched_at_end", stored("fixed"), vf, clause="no operation above wrote the fixed parameter")
+
+    return g
+
+
+for _bp in (0, 1, 2):
+    group(["C16", "C08"], "variable.VarsManager/fit_coordinates/bounded=%d" % _bp,
+          ["variable:VarsManager.set_trans_var", "variable:VarsManager.set_all", "variable:VarsManager.set", "variable:VarsManager.get", "variable:VarsManager.get_all_val"],
+          no_native=True, cost=2, bound="three free parameters, the one at position %d bounded, one fixed parameter; all values symbolic" % _bp,
+          assumes=["Bound.get_x2y / get_y2x are an opaque function f and its inverse (their contract is proved for the default bound functions in variable.Bound/*)"])(_mk_fit_coordinates(_bp))
